@@ -595,6 +595,36 @@ func init() {
 		outside: "floats/NaN, funcs, chans, typed-nil pointers as compared leaves; custom equality policies (C14); case-folded kinds",
 		assumptions: []string{"the reference verdict is computed by a plain comparison over the harness's closed type universe"},
 	})
+
+	register(&property{
+		id: "C12",
+		gen: func(tier string, seed int) []symx.CaseSpec {
+			var out []symx.CaseSpec
+			for k := 0; k <= 13; k++ {
+				out = append(out, cs("VH_C12_Convert", k))
+			}
+			// hand-picked: a condition whose expression is a stack alias; nested stack; nested condition
+			out = append(out, cs("VH_C12", 2, 2, 0, 0, 5, 1, 0, 0))
+			out = append(out, cs("VH_C12", 2, 2, 0, 1, 3, 1, 1, 0, 2))
+			out = append(out, cs("VH_C12", 2, 1, 1, 0, 2))
+			n := q(tier, 40, 400)
+			r := uint64(seed)*2654435761 + 12
+			for i := 0; i < n; i++ {
+				var digits []int
+				for k := 0; k < 30; k++ {
+					r = r*6364136223846793005 + 1442695040888963407
+					digits = append(digits, int((r>>33)%180))
+				}
+				out = append(out, cs("VH_C12", append([]int{2, 1 + i%3}, digits...)...))
+			}
+			return out
+		},
+		boundsText: map[string]string{
+			"quick":    "ConvertStack/ConvertCondition on 14 value forms; 3 hand-picked + 40 seeded trees of depth<=2, width<=3 in which up to 3 nested Stacks/Conditions are each independently native / alias / alias with String / pointer to alias (all 4^k combinations by fork); Traverse paths of length 1-3 with unconstrained indices",
+			"thorough": "as quick with 400 seeded trees",
+		},
+		outside: "aliases deeper than the third nested position of a tree (kept native); trees outside the sample",
+	})
 }
 
 var _ = fmt.Sprint
